@@ -545,7 +545,7 @@ def rule_minsum(repo: Repo, rep: Report) -> int:
     form(rep, "MINSUM", fi, mm[0].value if len(mm) == 1 else None, [f"torch.min(torch.abs({G}), dim=2)", f"torch.abs({G}).min(dim=2)", f"torch.min({G}.abs(), dim=2)", f"torch.min(torch.abs({G}), 2)", f"torch.min(torch.abs({G}), dim=2).values", f"torch.abs({G}).min(dim=2).values", f"{G}.abs().min(dim=2).values", f"{G}.abs().min(dim=2)"], "magnitude = minimum extrinsic magnitude over the gather axis", "min-sum takes the MINIMUM of the ABSOLUTE values over the extrinsic axis (2)", num=([{G: [-3.0, 2.0, -0.5]}, {G: [1.5, 0.25]}, {G: [-0.1, -4.0, 2.0, -7.0]}], lambda p: min(abs(x) for x in p[G]), (), lambda v: v[0] if isinstance(v, list) else v))
     if len(mm) == 1 and isinstance(mm[0].value, ast.Call) and (call_name(mm[0].value) or "").endswith("min"):
         t = mm[0].targets[0]
-        rep.check(isinstance(t, ast.Tuple) and len(t.elts) == 2 and isinstance(t.elts[0], ast.Name) and t.elts[0].id == "min_magnitudes", "MINSUM", fi, f"{unparse(t)} = torch.min(..., dim=2)", "values (not indices) of the reduction are used", "torch.min(dim=) returns (values, indices): the magnitudes must be the first element", node=mm[0])
+        rep.shape(isinstance(t, ast.Tuple) and len(t.elts) == 2 and isinstance(t.elts[0], ast.Name) and t.elts[0].id == "min_magnitudes", isinstance(t, ast.Tuple) and len(t.elts) == 2 and isinstance(t.elts[1], ast.Name) and t.elts[1].id == "min_magnitudes", "MINSUM", fi, f"{unparse(t)} = torch.min(..., dim=2)", "values (not indices) of the reduction are used", "torch.min(dim=) returns (values, indices): the magnitudes must be the first element", node=mm[0])
     vm = assigns(fi, "v_messages")
     prod = [s for s in vm if "sign_product" in unparse(s.value)]
     form(rep, "MINSUM", fi, prod[0].value if len(prod) == 1 else None, ["sign_product * min_magnitudes"], "message = sign * magnitude", "the message is the sign product times the minimum magnitude", num=([{"sign_product": -1, "min_magnitudes": 0.75}, {"sign_product": 1, "min_magnitudes": 2.0}], lambda p: p["sign_product"] * p["min_magnitudes"]))
